@@ -109,9 +109,10 @@ pub fn set_clock(_now: u64) {
 pub static WRAP16: AtomicBool = AtomicBool::new(false);
 
 /// Canonical age used in state identities: exact below `cap`; above it all ages are merged EXCEPT
-/// those adjacent to a multiple of 2^32 ms (and, in the thorough tier, of 2^16 ms): elapsed-time
-/// arithmetic truncated to 32 (16) bits wraps there, so such ages can behave differently from
-/// other old ages. Adjacent = 0, 1, 2 ms after or 1, 2 ms before the multiple.
+/// those adjacent to a multiple of 2^32 ms (and, in the thorough tier, of 2^16 ms) or of 1000 ms:
+/// elapsed-time arithmetic truncated to 32 (16) bits wraps there, and sub-second accessors drop whole
+/// seconds, so such ages can behave differently from other old ages. Adjacent = 0, 1, 2 ms after or
+/// 1, 2 ms before the multiple.
 pub fn canon_age(age: u64, cap: u64) -> u64 {
     if age < cap {
         return age;
@@ -127,7 +128,10 @@ pub fn canon_age(age: u64, cap: u64) -> u64 {
     }
     let c16 = if WRAP16.load(Ordering::Relaxed) && age >= (1 << 16) - 2 { near(age & 0xFFFF, 1 << 16) } else { 0 };
     let c32 = if age >= (1u64 << 32) - 2 { near(age & 0xFFFF_FFFF, 1 << 32) } else { 0 };
-    cap + c16 * 8 + c32
+    // whole seconds: `subsec_*` accessors of Duration drop them, so an age of 1000 or 1001 ms can
+    // look like 0 or 1 ms
+    let c1000 = if age >= 998 { near(age % 1000, 1000) } else { 0 };
+    cap + c16 * 64 + c32 * 8 + c1000
 }
 
 /// 128-bit fingerprint of a value's derived `Debug` rendering, with every mock instant
